@@ -437,6 +437,45 @@ def cross_version(ctx):
                     break
 
 
+def with_extra_entries(ctx):
+    """LAST step (it changes process-wide state the way an in-stream definition message does): with one unrelated extra Table B
+    entry registered, every bundled sequence still builds the same tree and flattens to the same lists"""
+    from pybufrkit.tables import TableGroupCacheManager
+    from pybufrkit.descriptors import flat_member_ids
+    TableGroupCacheManager.invalidate()
+    TableGroupCacheManager.add_extra_entries({'063200': ['VERIF EXTRA ELEMENT', 'NUMERIC', 0, 0, 8, '', 0, 0]}, {})
+    for v in (33, R.wmo_versions()[ctx.shard % len(R.wmo_versions())]):
+        B, D = R.load_tables(0, 0, 0, v, 0)
+        tg = TableGroupCacheManager.get_table_group(master_table_version=v)
+        for n, (sid, mem) in enumerate(sorted(D.items())):
+            if not ctx.mine(n):
+                continue
+            try:
+                want = expand(D, [sid])
+            except (KeyError, RecursionError):
+                continue
+            ctx.count('sequences_with_extra_entries_registered')
+            ctx.evaluated(('extra', v, sid), any(i >= 100000 for i in mem))
+            spec = dict(part='with-extra-entries', version=v, id=sid)
+            try:
+                for ids in ([sid], [1001, 101002, sid, 1002]):
+                    t = tg.template_from_ids(*ids)
+                    if t.original_descriptor_ids != ids:
+                        ctx.violate('extra-entries/original-ids-differ', 'with an unrelated extra entry registered, template_from_ids(%r) flattens '
+                                    'back to %r' % (ids, t.original_descriptor_ids[:12]), spec)
+                        raise StopIteration
+                    if itree(t.members) != rtree(D, ids):
+                        ctx.violate('extra-entries/ownership-differs', 'with an unrelated extra entry registered the tree of %r differs from FM-94' % (ids,), spec)
+                        raise StopIteration
+                if flat_member_ids(tg.template_from_ids(sid)) != want:
+                    ctx.violate('extra-entries/expansion-differs', 'with an unrelated extra entry registered sequence %06d (v%d) expands differently' % (sid, v), spec)
+            except StopIteration:
+                break
+            except Exception as e:
+                ctx.violate('extra-entries/exception:%s' % type(e).__name__, 'template_from_ids(%06d) raised %r with an extra entry registered' % (sid, e), spec, exc=e)
+                break
+
+
 def cli_tables(ctx):
     """`lookup` prints an element's Table B attributes, `info -t` the template of a file: both against the table files"""
     from mon.cli import run_cli
@@ -537,6 +576,7 @@ def run(ctx):
     version_selection(ctx, dec)
     cross_version(ctx)
     cli_tables(ctx)
+    with_extra_entries(ctx)
 
 
 def replay(ctx, case):
